@@ -28,6 +28,9 @@ func (q *qspec) eval(call *Call, n int, replies map[uint32]*puppet.Rep) (bool, i
 		return len(replies) >= sc.Q, len(replies)
 	case "needs":
 		id := q.c.IDs[sc.Node%len(q.c.IDs)]
+		if !IsNodeCall(call.Spec.Kind) && q.c.IsAlias(call.Spec.Config) {
+			id = AliasID(sc.Node % len(q.c.IDs))
+		}
 		_, ok := replies[id]
 		return ok && len(replies) >= sc.Q, len(replies)
 	case "equal":
